@@ -277,7 +277,7 @@ func checkPowerRankKey2(r *Run, rule string) {
 		Instrs(g, func(in ssa.Instruction) {
 			if st, ok2 := in.(*ssa.Store); ok2 {
 				a, v := P.TermAt(st.Addr, st).String(), P.TermAt(st.Val, st).String()
-				if strings.HasPrefix(v, "^types.CopyBytes(param:key[(8 + 1), _, _])[") && a[1:] == v[1:] {
+				if strings.HasPrefix(v, "^types.CopyBytes(param:key[9, _, _])[") && a[1:] == v[1:] {
 					ok = true
 				}
 			}
